@@ -27,9 +27,14 @@ ASSUMPTIONS = [
     'wrong integer beyond that)',
     'nx, ny, nz, nspec, T enumerated (small); the cut offset L is an '
     'unbounded symbolic integer in [header, full size)',
-    'only the gridded (uamiv) memmap reader is encoded; lateral_boundary, '
-    'temperature/one3d/wind/... and bpch readers are not (their whole-file '
-    'memmap + reshape logic infers the grid from payload words, see DESIGN)',
+    'header-less met readers (one3d = humidity/vertical_diffusivity, '
+    'temperature, height_pressure): run whole on a prefix of a small concrete '
+    'reference file (nz<=2, T=3, <=3 cells) whose length is symbolic; the '
+    'path forks over the feasible lengths, after which the run is numpy\'s '
+    'own code on the real prefix; the last word of the cut file is an '
+    'arbitrary 32-bit pattern when it is payload (checks/metmap.py)',
+    'lateral_boundary, landuse, wind, cloud_rain and bpch readers are not '
+    'encoded',
 ]
 
 MANIFEST = {
@@ -44,10 +49,16 @@ MANIFEST = {
             'between the end of the header and the full size, the reader '
             'either raises or computes a whole number of complete time steps '
             'that fit in L, located at the byte offsets the CAMx layout '
-            'prescribes (so the exposed data are those of the full file).',
+            'prescribes (so the exposed data are those of the full file). '
+            'For the header-less met readers (one3d, temperature, '
+            'height_pressure; nz<=2, T=3): for every byte offset, and every '
+            'value of the trailing payload word, the reader raises or '
+            'exposes whole steps with the values and time flags of the full '
+            'file.',
     'note': 'Trusted: z3, numpy dtype item sizes (real numpy), the np.memmap '
             'contract, the reference layout. Cuts inside the header rely on '
-            'the memmap contract alone. Other formats are not encoded.',
+            'the memmap contract alone. The met-reader obligations are '
+            'concrete numpy runs per solver-derived length class.',
 }
 
 NAMES = ['nspec', 'nx', 'ny', 'nz', 'offset', 'date_time_block_size',
